@@ -4964,6 +4964,15 @@ class SymbolTableNode:
                     set_info(node, self.stored_info)
                     self.stored_info = None
                 node.accept(node_fixer)
+                if (
+                    self.plugin_generated
+                    and isinstance(node, FuncDef)
+                    and isinstance(node.type, mypy.types.CallableType)
+                ):
+                    # Methods synthesized by plugins have no definition when they are
+                    # created, so they should not get one when loaded from cache either
+                    # (it is used in error messages).
+                    node.type.definition = None
                 self.unfixed = False
         return self._node
 
